@@ -15,8 +15,8 @@ CONSTANTS
   PctMilli = 700
   MaxBurnNonce = 3
   Staked = {"a1", "a2", "a3"}
-  Nonces = {0, 1}
-  SigSeqs <- Seqs3
+  Nonces = {0}
+  SigSeqs <- Multi3
   BurnVals <- NoVals
   Acceptance = "intended"
   CountsUnverified = FALSE
